@@ -198,11 +198,21 @@ class Edits:
     def add(self, start, end, text, rule, note=""):
         if not (self.lo <= start <= end <= self.hi):
             raise VxError(f"internal: edit out of range ({rule})")
-        for (s, e, _, r, _) in self.e:
+        keep = []
+        for ed in self.e:
+            (s, e, _, r, _) = ed
             if start < e and s < end:
+                if start <= s and e <= end:
+                    continue            # the new (outer) rewrite replaces text that contained an earlier one: outer wins
+                if s <= start and end <= e:
+                    return              # the new rewrite lies inside text that is already replaced: nothing to do
                 raise VxError(f"conflicting rewrites: {rule} overlaps {r} at line {line_of(self.src, start)}")
-            if start == end and s == e and s == start:
-                pass
+            if start == end and s < start < e:
+                return                  # insertion point inside replaced text
+            if s == e and start < s < end:
+                continue                # earlier insertion inside the newly replaced text
+            keep.append(ed)
+        self.e = keep
         self.e.append((start, end, text, rule, note))
     def render(self):
         """returns (text, segments) where segments = list of (text, orig_off or None)"""
@@ -304,6 +314,16 @@ def rewrite_for(src, toks, br, loop, spec_text, idx_name, log, kind_hint=None):
         iv, av, bv = pm.group(1), pm.group(2), pm.group(3)
         head = f"let mut {n}: usize = 0;\n while {n} < {X}.len() && {n} < {Y}.len()\n{spec_text}\n {{\n let {iv} = {n}; let {av} = &{X}[{n}]; let {bv} = &{Y}[{n}]; {n} += 1;\n"
         return head, f"for {pat} in {expr} {{ => index loop over zip(`{X}`, `{Y}`) (enumerate)"
+    mz = re.match(r"^(.*) \. iter \( \) \. zip \( (.*?)(?: \. iter \( \))? \)$", ne)
+    if mz:
+        pm = re.match(r"^\(\s*([A-Za-z_][A-Za-z0-9_]*)\s*,\s*([A-Za-z_][A-Za-z0-9_]*)\s*\)$", pat, re.S)
+        if not pm:
+            raise VxError(f"E7: unsupported zip pattern `{pat}`")
+        def untok2(t): return re.sub(r"\s*([.()\[\]:,])\s*", r"\1", t).replace(",", ", ")
+        X, Y = untok2(mz.group(1)), untok2(mz.group(2))
+        av, bv = pm.group(1), pm.group(2)
+        head = f"let mut {n}: usize = 0;\n while {n} < {X}.len() && {n} < {Y}.len()\n{spec_text}\n {{\n let {av} = &{X}[{n}]; let {bv} = &{Y}[{n}]; {n} += 1;\n"
+        return head, f"for {pat} in {expr} {{ => index loop over zip(`{X}`, `{Y}`)"
     base = strip_suffix(expr, ".iter().enumerate()")
     if base is not None:
         pm = re.match(r"^\(\s*([A-Za-z_][A-Za-z0-9_]*)\s*,\s*(.+?)\s*\)$", pat, re.S)
